@@ -36,6 +36,15 @@ def reference_functions():
 
 
 _ref_tests = None
+_ref_globals = None
+
+
+def reference_globals():
+    global _ref_globals
+    if _ref_globals is None:
+        p = os.path.join(_HERE, "reference", "globals.json")
+        _ref_globals = json.load(open(p)) if os.path.exists(p) else {}
+    return _ref_globals
 
 
 def reference_tests():
@@ -163,6 +172,51 @@ def attr_builtins(tree):
     return n_done
 
 
+def filter_loops(tree):
+    """`for t in [v for v in ITER if COND]: BODY` -> `for t in ITER:` / `if COND[t/v]: BODY` (a filtering comprehension
+    that only feeds a loop is that loop's guard)"""
+    n_done = 0
+    for n in ast.walk(tree):
+        if isinstance(n, ast.For) and not n.orelse and isinstance(n.iter, (ast.ListComp, ast.GeneratorExp)) and len(n.iter.generators) == 1 \
+                and isinstance(n.target, ast.Name):
+            gen = n.iter.generators[0]
+            if gen.is_async or not isinstance(gen.target, ast.Name) or not isinstance(n.iter.elt, ast.Name) or n.iter.elt.id != gen.target.id or not gen.ifs:
+                continue
+            cond = gen.ifs[0] if len(gen.ifs) == 1 else ast.BoolOp(op=ast.And(), values=list(gen.ifs))
+            if gen.target.id != n.target.id:
+                cond = _Subst({gen.target.id: ast.Name(id=n.target.id, ctx=ast.Load())}).visit(cond)
+            n.iter = gen.iter
+            n.body = [ast.fix_missing_locations(ast.copy_location(ast.If(test=cond, body=n.body, orelse=[]), n.body[0]))]
+            n_done += 1
+    return n_done
+
+
+def propagate_new_globals(module, known_globals):
+    """A module-level name the reference does not know, bound once at module level to a pure expression of other
+    module-level names / constants (a hoisted tuple of modes, a renamed constant), is replaced by that expression."""
+    if known_globals is None:
+        return 0
+    known_globals = set(known_globals)
+    n_done = 0
+    for st in list(module.tree.body):
+        if isinstance(st, ast.Assign) and len(st.targets) == 1 and isinstance(st.targets[0], ast.Name) and st.targets[0].id not in known_globals:
+            name = st.targets[0].id
+            if name.startswith("__") or not is_pure(st.value) or isinstance(st.value, (ast.Dict, ast.List, ast.Set)):
+                continue
+            stores = [n for n in ast.walk(module.tree) if isinstance(n, ast.Name) and n.id == name and isinstance(n.ctx, (ast.Store, ast.Del))]
+            globs = [n for n in ast.walk(module.tree) if isinstance(n, (ast.Global, ast.Nonlocal)) and name in n.names]
+            # shadowing: a parameter or local of the same name in some function
+            shadow = any(isinstance(n, ast.arg) and n.arg == name for n in ast.walk(module.tree))
+            if len(stores) != 1 or globs or shadow:
+                continue
+            if any(isinstance(n, ast.Name) and n.id == name for n in ast.walk(st.value)):
+                continue
+            _Subst({name: st.value}).visit(module.tree)
+            module.tree.body.remove(st)
+            n_done += 1
+    return n_done
+
+
 def merge_nested_ifs(tree):
     """`if a: (only statement) if b: X`, neither with an else -> `if a and b: X` (innermost first)."""
     n_done = 0
@@ -240,7 +294,7 @@ class _Subst(ast.NodeTransformer):
 # ---------------------------------------------------------------------------------------------------------
 # new single-assignment locals
 
-def propagate_new_locals(fn, known_names):
+def propagate_new_locals(fn, known_names, pure_only=False):
     """Replace every local of `fn` that is not in `known_names`, bound exactly once by a plain `v = E`, by E at its
     uses. Returns the number of locals removed."""
     from .localnames import local_set
@@ -290,6 +344,8 @@ def propagate_new_locals(fn, known_names):
                     continue
                 loads[v] = [n for n in ast.walk(fn) if isinstance(n, ast.Name) and n.id == v and isinstance(n.ctx, ast.Load)]
             if not loads.get(v):
+                continue
+            if len(stores.get(v, [])) > 1 and pure_only:
                 continue
             if len(stores.get(v, [])) > 1:
                 # several definitions: fine when each is a plain `v = E` whose value is consumed by the statement that
@@ -357,6 +413,8 @@ def propagate_new_locals(fn, known_names):
             # a def inside a loop whose uses could see the value of a previous iteration is excluded by the rule above
             # (uses come after the def in the same block)
             pure = is_pure(E)
+            if pure_only and not pure:
+                continue
             if pure:
                 # operands must not be re-bound / re-stored between the def and the last use (textual window)
                 last = max(getattr(u_, "end_lineno", None) or getattr(u_, "lineno", 0) for _, _, u_ in use_stmts)
@@ -694,11 +752,22 @@ def _resolve(module, caller_q, call, helpers):
     if isinstance(f, ast.Attribute) and isinstance(f.value, ast.Name):
         base = f.value.id
         owner = None
+        if base in ("os", "sys", "np", "warnings", "time", "threading", "mp", "pickle", "io"):
+            return None
         if base in ("self", "cls") and cls_prefix:
             owner = cls_prefix
         elif base in module.classes:
             owner = base
         if owner is None:
+            # any other simple receiver (`_parallel.m()` in a nested class, `other.m()`): only when exactly one class of
+            # the module defines a new helper of that name and nothing else in the module is called like that
+            cands = [q_ for q_ in helpers if q_.rsplit(".", 1)[-1] == f.attr and "." in q_]
+            known_same = [q_ for q_ in module.funcs if q_.rsplit(".", 1)[-1] == f.attr and q_ not in helpers]
+            if len(cands) == 1 and not known_same:
+                h = helpers[cands[0]]
+                deco = _decorators(h)
+                if not deco:
+                    return h, f.value, "method"
             return None
         # the class itself, then its in-module bases
         seen = []
